@@ -49,11 +49,12 @@ static const int ERRRC[] = { KSI_INVALID_ARGUMENT, KSI_OUT_OF_MEMORY, KSI_IO_ERR
 	KSI_HTTP_ERROR, KSI_UNKNOWN_ERROR, KSI_BUFFER_OVERFLOW, KSI_SERVICE_UNKNOWN_ERROR, KSI_INVALID_SIGNATURE };
 #define NERRRC ((int)(sizeof(ERRRC) / sizeof(ERRRC[0])))
 
-typedef struct Node { int type, slot, n; struct Node *kids; KSI_Rule *rules; } Node;
+typedef struct Node { int type, slot, n; struct Node *kids, *parent; KSI_Rule *rules; } Node;
 typedef struct {
 	int npol, nslot;
 	Node root[MAXPOL]; KSI_Policy *pol[MAXPOL]; char name[MAXPOL][16];
 	int slot_pol[MAXSLOT], slot_parent[MAXSLOT];
+	Node *slot_node[MAXSLOT];
 	const char *text;
 } Chain;
 
@@ -191,6 +192,23 @@ static int parse_list(const char **ps, Node *owner, Chain *c, int pol, int depth
 	owner->rules[owner->n].type = KSI_RULE_TYPE_BASIC; owner->rules[owner->n].rule = NULL;
 	return 0;
 }
+/* parent links are set once the kids arrays no longer move */
+static void fix_parents(Chain *c, Node *list) {
+	int i;
+	for (i = 0; i < list->n; i++) {
+		Node *k = &list->kids[i];
+		k->parent = list;
+		if (k->type == T_BASIC) c->slot_node[k->slot] = k; else fix_parents(c, k);
+	}
+}
+static int is_ancestor(const Node *a, const Node *n) { for (n = n->parent; n; n = n->parent) if (n == a) return 1; return 0; }
+/* the element, containing rule `last`, of the innermost list that also contains rule `next`: the element after which the evaluation
+ * of that list went on to `next` */
+static const Node *decision_elem(const Chain *c, int last, int next) {
+	const Node *e = c->slot_node[last];
+	while (e->parent && !is_ancestor(e->parent, c->slot_node[next])) e = e->parent;
+	return e;
+}
 static void chain_free(Chain *c) {
 	int p;
 	for (p = 0; p < MAXPOL; p++) { if (c->pol[p]) KSI_Policy_free(c->pol[p]); c->pol[p] = NULL; free_list(&c->root[p]); }
@@ -204,6 +222,7 @@ static int chain_build(Chain *c, const char *text) {
 		p = c->npol++;
 		c->root[p].type = T_TOP;
 		if (parse_list(&s, &c->root[p], c, p, 0) != 0) goto bad;
+		fix_parents(c, &c->root[p]);
 		if (*s == '|') { s++; continue; }
 		if (*s == 0) break;
 		goto bad;
@@ -279,38 +298,35 @@ static void run_case(Chain *c, KSI_VerificationContext *vc) {
 	/* 1. exact invocation sequence */
 	for (common = 0; common < g_nlog && common < ref_nlog && common < MAXLOG && g_log[common] == ref_log[common]; common++);
 	lastslot = common > 0 ? ref_log[common - 1] : -1;
-	if (lastslot >= 0) snprintf(lastdesc, sizeof(lastdesc), "after-%s-in-%s", OUTNAME[g_out[lastslot]], TYPENAME[c->slot_parent[lastslot]]);
-	else snprintf(lastdesc, sizeof(lastdesc), "at-start");
 	if (common < g_nlog || common < ref_nlog) {
-		if (common == ref_nlog) {
-			/* the library invoked a rule after the stopping point */
-			int s = common < MAXLOG ? g_log[common] : -1;
-			if (lastslot >= 0 && s >= 0 && c->slot_pol[s] != c->slot_pol[lastslot]) {
-				Ref *pr = &per[c->slot_pol[lastslot]];
-				snprintf(key, sizeof(key), "verify:fallback-taken-after-%s", pr->rc != KSI_OK ? "ERROR" : RN(pr->res));
-				snprintf(detail, sizeof(detail), "fallback policy %d was evaluated although policy %d ended with %s", c->slot_pol[s], c->slot_pol[lastslot], pr->rc != KSI_OK ? "an internal error" : RN(pr->res));
-			} else {
-				snprintf(key, sizeof(key), "verify:rule-invoked-after-stop:%s", lastdesc);
-				snprintf(detail, sizeof(detail), "rule %d was invoked after the evaluation had to stop (%s)", s, lastdesc);
-			}
-		} else if (common == g_nlog) {
-			int s = ref_log[common];
-			if (lastslot >= 0 && c->slot_pol[s] != c->slot_pol[lastslot]) {
-				Ref *pr = &per[c->slot_pol[lastslot]];
-				snprintf(key, sizeof(key), "verify:fallback-not-taken-after-%s", RN(pr->res));
-				snprintf(detail, sizeof(detail), "fallback policy %d was not evaluated although policy %d ended with %s", c->slot_pol[s], c->slot_pol[lastslot], RN(pr->res));
-			} else {
-				snprintf(key, sizeof(key), "verify:rule-not-invoked:%s", lastdesc);
-				snprintf(detail, sizeof(detail), "rule %d was not invoked although the evaluation had to continue (%s)", s, lastdesc);
-			}
+		int sl = common < g_nlog && common < MAXLOG ? g_log[common] : -1;   /* next rule invoked by the library (-1: it stopped) */
+		int sr = common < ref_nlog ? ref_log[common] : -1;                  /* next rule due (-1: evaluation had to stop) */
+		if (sl < 0 || sl >= c->nslot) sl = -1;
+		if (lastslot < 0) {
+			snprintf(key, sizeof(key), "verify:first-rule-wrong");
+			snprintf(detail, sizeof(detail), "first rule invoked is %d, due was %d", sl, sr);
 		} else {
-			snprintf(key, sizeof(key), "verify:rule-order:%s", lastdesc);
-			snprintf(detail, sizeof(detail), "rule %d invoked where rule %d was due (%s)", g_log[common], ref_log[common], lastdesc);
+			/* the side that went on at the deeper level names the decision that differs */
+			int s = sl < 0 ? sr : sr < 0 ? sl : (sl < sr ? sl : sr);
+			int libwenton = (s == sl);
+			if (c->slot_pol[s] != c->slot_pol[lastslot]) {
+				Ref *pr = &per[c->slot_pol[lastslot]];
+				snprintf(key, sizeof(key), "verify:fallback-%s-after-%s", libwenton ? "taken" : "not-taken", pr->rc != KSI_OK ? "ERROR" : RN(pr->res));
+				snprintf(detail, sizeof(detail), "fallback policy %d was %s although policy %d ended with %s", c->slot_pol[s], libwenton ? "evaluated" : "not evaluated",
+					c->slot_pol[lastslot], pr->rc != KSI_OK ? "an internal error" : RN(pr->res));
+			} else {
+				const Node *e = decision_elem(c, lastslot, s); const char *rs; int keep = ref_nlog; Ref er;
+				if (e->type == T_BASIC) rs = OUTNAME[g_out[e->slot]];
+				else { er = ref_list(e); ref_nlog = keep; rs = er.rc != KSI_OK ? "ERROR" : RN(er.res); }
+				snprintf(key, sizeof(key), "verify:%s-after-%s-element-%s", libwenton ? "continued" : "stopped", TYPENAME[e->type], rs);
+				snprintf(detail, sizeof(detail), "after a %s element that ended %s (last rule invoked: %d) the library %s; next rule invoked by the library: %d, by the reference: %d (-1 = none)",
+					TYPENAME[e->type], rs, lastslot, libwenton ? "went on with the next element of the list" : "did not go on with the next element of the list", sl, sr);
+			}
 		}
 		report(c, key, detail);
 		goto done;
 	}
-	if (fin.last >= 0) snprintf(lastdesc, sizeof(lastdesc), "last-%s-in-%s", OUTNAME[g_out[fin.last]], TYPENAME[c->slot_parent[fin.last]]);
+	if (fin.last >= 0) snprintf(lastdesc, sizeof(lastdesc), "last-rule-%s", OUTNAME[g_out[fin.last]]);
 
 	/* 2. return code; no verdict together with an internal error */
 	if (fin.rc != KSI_OK) {
